@@ -219,6 +219,7 @@ type TS struct {
 	own          bool
 	fidOf        map[string]string // token → canonical key of the fid it was reserved/looked up under
 	reserved     map[string]bool   // tokens created as placeholders by a returns-locked constructor
+	lookedUp     map[string]bool   // tokens handed out bound by the locked getter (a fid found in the table)
 	consumed     int
 	releaseSites int
 	deleteSites  int
@@ -238,7 +239,7 @@ type tsRet struct {
 
 func newTS(p *Prog, spec LockSpec) *TS {
 	return &TS{p: p, spec: spec, sums: map[*ssa.Function]*fnSummary{}, viol: map[string]tsViolation{}, acc: map[string]*tsAccess{}, rets: map[*ssa.Function][]tsRet{},
-		fidOf: map[string]string{}, reserved: map[string]bool{}, entryBound: map[*ssa.Function]bool{}}
+		fidOf: map[string]string{}, reserved: map[string]bool{}, lookedUp: map[string]bool{}, entryBound: map[*ssa.Function]bool{}}
 }
 
 func (ts *TS) isTokPtr(t types.Type) bool {
@@ -882,6 +883,9 @@ func (ts *TS) call(c *tsCtx, s *tsState, call *ssa.Call, depth int) []*tsState {
 				}
 				if sum.resultEnt == "N" {
 					ts.reserved[t] = true
+				}
+				if sum.resultEnt == "B" {
+					ts.lookedUp[t] = true
 				}
 				for _, a := range call.Call.Args {
 					if isP9P(a.Type(), "Fid") {
